@@ -19,7 +19,7 @@ ID = "C08"
 LEVEL = "exploration"
 DECIDING = ("single_selectors_compared", "selector_pairs_compared", "seeds_compared")
 RULE = ("EXHAUSTIVE small scope: every index column over the alphabets {a, b, ab} and {a, A, b} up to length 4 "
-        "(quick) / 5 (thorough) x every selector form (positions, position lists, masks, names, name::count with "
+        "(quick; pairs up to length 3) / 5 (thorough; pairs up to length 4) x every selector form (positions, position lists, masks, names, name::count with "
         "positive and negative counts, regular expressions with and without count and <</>> shifts, inclusive name "
         "spans, closed / half-open value ranges over a column with ties and infinities, plain slices, name lists) "
         "x every PAIR of selectors for the composition law; plus random tables up to 200 rows; each corpus executed "
@@ -35,8 +35,8 @@ VALS = [0.5, 1.0, 1.0, 2.5, float("-inf"), float("inf"), 1.0, 0.0]
 
 def plan(tier, seed):
     if tier == "quick":
-        return [{"mode": "pure", "hashseed": h, "corpus": "small", "maxlen": 4, "random_tables": 40} for h in (0, 1, 2)]
-    return [{"mode": "pure", "hashseed": h, "corpus": "small", "maxlen": 5, "random_tables": 400} for h in range(8)]
+        return [{"mode": "pure", "hashseed": h, "corpus": "small", "maxlen": 4, "pairlen": 3, "random_tables": 40} for h in (0, 1, 2)]
+    return [{"mode": "pure", "hashseed": h, "corpus": "small", "maxlen": 5, "pairlen": 4, "random_tables": 400} for h in range(8)]
 
 
 def make_table(names):
@@ -151,6 +151,8 @@ def run_table(names, alphabet, counters, digests, violations, known, fp, pairs=T
     for (s1, p1), (s2, _) in itertools.product(single, single):
         if s1 is None or s2 is None:
             continue
+        if len(p1) != n and (isinstance(s2, (int, list)) or hasattr(s2, "dtype")):
+            continue        # positions / masks are relative to the table they are applied to
         names1 = [names[i] for i in p1]
         cols1 = {k: [v[i] for i in p1] for k, v in cols.items()}
         e2 = oracle(names1, cols1, s2)
@@ -217,7 +219,7 @@ def run_shard(spec):
     for alphabet in (["a", "b", "ab"], ["a", "A", "b"]):
         for L in range(0, spec["maxlen"] + 1):
             for names in itertools.product(alphabet, repeat=L):
-                run_table(list(names), alphabet, counters, digests, violations, known, fp)
+                run_table(list(names), alphabet, counters, digests, violations, known, fp, pairs=(L <= spec.get("pairlen", 3)))
                 counters["tables"] = counters.get("tables", 0) + 1
                 if len(violations) >= 12:
                     break
